@@ -276,4 +276,6 @@ def sinks_driven_through_the_list(ck):
             ck.ob("C11-O4", sitestr(f, n), okfwd, "%s forwards send() and flush() to the same sink" % cls if okfwd else
                   "%s drives a sink directly (%s): that sink is in no handler list, so the flush on a fatal message never reaches its file" % (fname.split("QtLogger::")[-1] or "a lambda", describe(n)[:60]),
                   key="send-site|outside-handler-list")
-    ck.require(n_sites >= 2, "expected the call sites Sink::process -> send and RotatingFileSink::send -> IODeviceSink::send, found %d" % n_sites)
+    # the essential anchor is Sink::process -> send; a derived sink may or may not go through its base class's send()
+    ck.require(n_sites >= 1 and any(o_["rule"] == "C11-O4" and (o_.get("key") or "").endswith("send-site|process") for o_ in ck.obligations),
+               "expected the call site Sink::process -> send, found %d send sites" % n_sites)
